@@ -19,7 +19,7 @@ def library_tus(scr):
             if os.path.basename(p) not in NON_TUS]
 
 
-def build_all(scr):
+def build_all(scr, only_compile=False):
     out = os.path.join(scr.dir, "audit")
     os.makedirs(out, exist_ok=True)
     gb = os.path.join(out, "all.gb")
@@ -28,6 +28,8 @@ def build_all(scr):
     rc, so, se, _, _ = core.run(cmd, cwd=out)
     if rc != 0:
         raise ToolError("library does not build with goto-cc: %s" % (so + se)[-1500:])
+    if only_compile:
+        return gb
     gb2 = os.path.join(out, "all2.gb")
     rc, so, se, _, _ = core.run(["goto-instrument", "--remove-function-pointers", gb, gb2], cwd=out)
     if rc != 0:
